@@ -16,7 +16,7 @@ CLAIMS = {
   "note": LANG_NOTE,
   "technique": LANG_TECH},
  "C09": {
-  "text": 'Partial. Proved (Props/C09.v, 17, closed): with the recover at the rule entry point no rule execution of the model yields a panic (and without it `if 5 {}` does — so the recover is what contains it); every model function is total (termination by construction), a for loop evaluates its condition at most 10000 times; conc children never let a panic out; engine level: every entry point returns nil or an error for every configuration, runs the other rules as its error policy prescribes (hand_sound) and later calls are unaffected. Established by translator + observation: T1 (every fan-out child signals its WaitGroup on every path: goBody shape); fault matrix of 31 fault classes x 21 construct positions (+ forRange / unbounded-loop / unassignable-target shapes) whose predicted outcome (value / error with cited positions) must be what the call returned, and 660 engine calls (21 entry points x 5 faulty rule kinds x 4 positions x flags) in child processes. Observed, not proved: that the real process does not crash or hang.',
+  "text": 'Partial. Proved (Props/C09.v, 17, closed): with the recover at the rule entry point no rule execution of the model yields a panic (and without it `if 5 {}` does — so the recover is what contains it); every model function is total (termination by construction), a for loop evaluates its condition at most 10000 times; conc children never let a panic out; engine level: every entry point returns nil or an error for every configuration, runs the other rules as its error policy prescribes (hand_sound) and later calls are unaffected. Established by translator + observation: T1 (every fan-out child signals its WaitGroup on every path: goBody shape); fault matrix of 31 fault classes x 24 construct positions (+ forRange / unbounded-loop / unassignable-target shapes) whose predicted outcome (value / error with cited positions) must be what the call returned, and 660 engine calls (21 entry points x 5 faulty rule kinds x 4 positions x flags) in child processes. Observed, not proved: that the real process does not crash or hang.',
   "note": LANG_NOTE,
   "technique": LANG_TECH},
  "C18": {
@@ -32,7 +32,7 @@ CLAIMS = {
   "note": LANG_NOTE,
   "technique": LANG_TECH},
  "C10": {
-  "text": 'Partial. Proved (Props/C10.v, 8, closed; the first five for any front end): an entry point that inspects all diagnostics before installing is all-or-nothing, installs exactly the C08 replacement/merge on success, and any two such entry points accept exactly the same texts; duplicate names are rejected; the reader model Lang/Reader.v (the token rules of the grammar, a recursive-descent reader making the alternative choices of the ANTLR parser, the checks of the listener; evaluated inside Coq on the text) accepts no text that defines a name twice or no rule, and only int64 saliences. Per-run obligation: the five entry points regenerated from the source (xlate compile) are all of that shape (obligations/GenCompileOk.v). Observed, not proved: totality (no panic / crash over valid, token-mutated, character-mutated, lexer-noise, arbitrary-byte streams and every kind of truncation (token-boundary prefixes / suffixes of a valid text, keyword-only texts), about 420 texts x 5 entry points quick), pairwise agreement, exact state equality on reject; for every distinct text the verdict of the full build and the installed names / saliences / descriptions equal those of the reader model (about 400 texts quick, 9,500 thorough; a disagreement with the model alone is reported without failing input, since C10 promises agreement between entry points, not a particular language).',
+  "text": 'Partial. Proved (Props/C10.v, 9, closed; the first five for any front end): an entry point that inspects all diagnostics before installing is all-or-nothing, installs exactly the C08 replacement/merge on success, and any two such entry points accept exactly the same texts; duplicate names are rejected; the reader model Lang/Reader.v (the token rules of the grammar, a recursive-descent reader making the alternative choices of the ANTLR parser, the checks of the listener; evaluated inside Coq on the text) accepts no text that defines a name twice or no rule, and only int64 saliences, and is total (C10_reader_model_is_total: it never runs out of fuel, for every text). Per-run obligation: the five entry points regenerated from the source (xlate compile) are all of that shape (obligations/GenCompileOk.v). Observed, not proved: totality (no panic / crash over valid, token-mutated, character-mutated, lexer-noise, arbitrary-byte streams and every kind of truncation (token-boundary prefixes / suffixes of a valid text, keyword-only texts), about 420 texts x 5 entry points quick), pairwise agreement, exact state equality on reject; for every distinct text the verdict of the full build and the installed names / saliences / descriptions equal those of the reader model (about 400 texts quick, 9,500 thorough; a disagreement with the model alone is reported without failing input, since C10 promises agreement between entry points, not a particular language).',
   "note": LANG_NOTE,
   "technique": LANG_TECH},
  "C15": {
